@@ -554,4 +554,370 @@ theorem spenderOf_own_none {L : Ledger} (hl : LWF L) {bm : BlockMeta} {t : Tx} {
     · exact hf.freshNoChild (fun q hq e => hk ⟨q, hq, e⟩) _ (known_of_mined h) _ hin rfl
   · exact hf.noSelf _ hin rfl
 
+/-! ### the store after the core of `insertMinedTx`, on a good pair -/
+
+structure CoreFinal (s : Store) (t : Tx) (bm : BlockMeta) (c : Store) : Prop where
+  mid : ∃ m, CoreMid s t bm m ∧ c.blocks = m.blocks ∧ c.txrecs = m.txrecs ∧ c.credits = m.credits ∧
+    c.debits = m.debits ∧ c.locked = m.locked
+  unmined : ∀ h v, c.unmined.find? h = some v ↔ s.unmined.find? h = some v ∧ h ≠ t.hash
+  uc : ∀ op, c.unminedCredits.find? op = if op.hash = t.hash then none else s.unminedCredits.find? op
+  ui : ∀ op x, x ∈ spendHashes c op ↔ x ∈ spendHashes s op ∧ x ≠ t.hash
+  ne : InputsNE c
+  nodupUnmined : NodupKeys c.unmined
+
+theorem coreFinal_of {s : Store} {L : Ledger} (hg : Good s L) {bm : BlockMeta} {t : Tx} {cr : List (Nat × Bool)}
+    (hf : ConfFacts L bm t cr) : CoreFinal s t bm (confirmCore s t bm) := by
+  have hm := coreMid_updateMinedBalance s t bm hf.insNodup hg.wf2.wf.nodupUC
+  unfold confirmCore
+  generalize updateMinedBalance (recordTx s t bm) t bm.block = m at hm
+  simp only
+  have hr := hg.ref
+  by_cases hpool : t ∈ L.pool
+  · -- the transaction was unconfirmed
+    have hfind : s.unmined.find? t.hash = some t := (hr.unmined_iff _ _).mpr ⟨hpool, rfl⟩
+    have hc : m.unmined.contains t.hash = true := by rw [hm.unmined, contains_eq, hfind]; rfl
+    rw [if_pos hc]
+    obtain ⟨d1, d2, d3, d4, d5, d6, d7, d8, d9⟩ := deleteUnminedTx_spec m t _ rfl
+    refine ⟨⟨m, hm, d1, d2, d3, d4, d5⟩, ?_, ?_, ?_, ?_, ?_⟩
+    · intro h v
+      rw [d6, hm.unmined, find?_erase]
+      by_cases e : t.hash = h
+      · subst e; simp
+      · simp only [e, if_false]
+        constructor
+        · intro h1; exact ⟨h1, fun x => e x.symm⟩
+        · intro h1; exact h1.1
+    · intro op
+      rw [d7, hm.uc]
+      by_cases e : op.hash = t.hash
+      · simp only [e, true_and, if_true]
+        by_cases e2 : op.index < t.outs.length
+        · simp [e2]
+        · simp only [e2, if_false]
+          cases hu : s.unminedCredits.find? op with
+          | none => rfl
+          | some uc =>
+            obtain ⟨u, hu', h1, h2, _⟩ := (hr.ucredits_iff op uc).mp hu
+            have : u = t := hf.sameTx u hu' (by rw [← h1, e])
+            subst this
+            exact absurd (List.getElem?_eq_some_iff.mp h2).1 e2
+      · simp [e]
+    · intro op x
+      rw [d8]
+      have : spendHashes m op = spendHashes s op := by unfold spendHashes; rw [hm.ui]
+      rw [this]
+      constructor
+      · rintro ⟨h1, h2⟩
+        refine ⟨h1, ?_⟩
+        rintro rfl
+        obtain ⟨u, hu, h3, h4⟩ := mem_poolSpenders.mp ((hr.uinputs _ _).mp h1)
+        have : u = t := hf.sameTx u hu h4
+        subst this
+        exact h2 h3 rfl
+      · rintro ⟨h1, h2⟩; exact ⟨h1, fun _ => h2⟩
+    · apply d9
+      intro op; rw [hm.ui]; exact hr.uinputsNE op
+    · rw [d6, hm.unmined]; exact nodupKeys_erase _ _ hr.nodupUnmined
+  · -- the transaction is new
+    have hnp : ∀ u ∈ L.pool, u.hash ≠ t.hash := by
+      intro u hu e; exact hpool (hf.sameTx u hu e ▸ hu)
+    have hfind : s.unmined.find? t.hash = none := by
+      cases hfu : s.unmined.find? t.hash with
+      | none => rfl
+      | some v =>
+        obtain ⟨h1, h2⟩ := (hr.unmined_iff _ _).mp hfu
+        exact absurd h2.symm (hnp v h1)
+    have hc : m.unmined.contains t.hash = false := by rw [hm.unmined, contains_eq, hfind]; rfl
+    rw [hc]
+    simp only [Bool.false_eq_true, if_false]
+    refine ⟨⟨m, hm, rfl, rfl, rfl, rfl, rfl⟩, ?_, ?_, ?_, ?_, ?_⟩
+    · intro h v
+      rw [hm.unmined]
+      constructor
+      · intro h1
+        refine ⟨h1, ?_⟩
+        rintro rfl; rw [hfind] at h1; cases h1
+      · intro h1; exact h1.1
+    · intro op
+      rw [hm.uc]
+      by_cases e : op.hash = t.hash
+      · simp only [e, if_true]
+        cases hu : s.unminedCredits.find? op with
+        | none => rfl
+        | some uc =>
+          obtain ⟨u, hu', h1, _, _⟩ := (hr.ucredits_iff op uc).mp hu
+          exact absurd (by rw [← h1, e]) (hnp u hu')
+      · simp [e]
+    · intro op x
+      have : spendHashes m op = spendHashes s op := by unfold spendHashes; rw [hm.ui]
+      rw [this]
+      constructor
+      · intro h1
+        refine ⟨h1, ?_⟩
+        rintro rfl
+        obtain ⟨u, hu, _, h4⟩ := mem_poolSpenders.mp ((hr.uinputs _ _).mp h1)
+        exact hnp u hu h4
+      · intro h1; exact h1.1
+    · intro op; rw [hm.ui]; exact hr.uinputsNE op
+    · rw [hm.unmined]; exact hr.nodupUnmined
+
+/-! ### the core of `insertMinedTx` refines "`t` joins the chain" -/
+
+theorem credKey_eta (k : CredKey) : (⟨k.outPoint.hash, k.block, k.outPoint.index⟩ : CredKey) = k := by cases k; rfl
+
+theorem refines_confirmCore {s : Store} {L : Ledger} (hg : Good s L) {bm : BlockMeta} {t : Tx} {cr : List (Nat × Bool)}
+    (hf : ConfFacts L bm t cr) : Refines (confirmCore s t bm) (toChain L bm t) := by
+  have hr := hg.ref
+  have hl := hg.lwf
+  have hw := hg.wf2
+  obtain ⟨⟨m, hm, cb, ct, cc, cd, clk⟩, cu, cuc, cui, cne, cnu⟩ := coreFinal_of hg hf
+  generalize confirmCore s t bm = c at cb ct cc cd clk cu cuc cui cne cnu ⊢
+  have hsh := hf.sameHeight
+  have hmemC := fun p => mem_chainTxs_toChain (t := t) hsh p
+  have hcredit : (toChain L bm t).credit = L.credit := rfl
+  -- the credit of an input of t that sits in the unspent index
+  have hunspent : ∀ inp b0, s.unspent.find? inp = some b0 →
+      ∃ cv, s.credits.find? ⟨inp.hash, b0, inp.index⟩ = some cv ∧ cv.spent = false ∧
+        baseCredit s ⟨inp.hash, b0, inp.index⟩ = cv := by
+    intro inp b0 hu
+    obtain ⟨cv, h1, h2⟩ := (hw.wf.index inp b0).mp hu
+    exact ⟨cv, h1, h2, by unfold baseCredit; rw [h1]; rfl⟩
+  -- the unconfirmed credits of t (only if t was unconfirmed)
+  have hmove : ∀ op uc, s.unminedCredits.find? op = some uc → op.hash = t.hash →
+      t ∈ L.pool ∧ t.outs[op.index]? = some uc.amount ∧ lookup L.credit op = some uc.change := by
+    intro op uc hu hh
+    obtain ⟨u, hu', h1, h2, h3⟩ := (hr.ucredits_iff op uc).mp hu
+    have : u = t := hf.sameTx u hu' (by rw [← h1, hh])
+    subst this; exact ⟨hu', h2, h3⟩
+  refine ⟨?_, ?_, ?_, ?_, ?_, ?_, ?_, cne, ?_, ?_, cnu, ?_⟩
+  · -- blocks
+    rw [cb, hm.blocks]
+    have e : newBlockRec s t bm = blockRecAfter s.blocks bm t := rfl
+    rw [e, hr.blocks]
+    exact blocks_insert_chain bm t L.chain hl.heights
+  · -- txrecs
+    intro k v
+    rw [ct, hm.txrecs, find?_insert, mem_expTxrecs]
+    by_cases e : (⟨t.hash, bm.block⟩ : TxKey) = k
+    · subst e
+      simp only [if_true, Option.some.injEq]
+      constructor
+      · rintro rfl; exact ⟨bm, (hmemC _).mpr (Or.inr rfl), rfl⟩
+      · rintro ⟨b, hmb, e2⟩
+        rcases (hmemC _).mp hmb with h | h
+        · injection e2 with e3 _
+          exact absurd e3.symm (hf.notMined _ h)
+        · cases h; rfl
+    · simp only [e, if_false]
+      rw [hr.txrecs_iff]
+      constructor
+      · rintro ⟨b, hmb, e2⟩; exact ⟨b, (hmemC _).mpr (Or.inl hmb), e2⟩
+      · rintro ⟨b, hmb, e2⟩
+        rcases (hmemC _).mp hmb with h | h
+        · exact ⟨b, h, e2⟩
+        · cases h; exact absurd e2.symm e
+  · -- unmined
+    intro h v
+    rw [cu, hr.unmined_iff, mem_expUnmined, mem_pool_toChain]
+    constructor
+    · rintro ⟨⟨h1, h2⟩, h3⟩; exact ⟨⟨h1, by rw [← h2]; exact h3⟩, h2⟩
+    · rintro ⟨⟨h1, h2⟩, h3⟩; exact ⟨⟨h1, h3⟩, by rw [h3]; exact h2⟩
+  · -- credits
+    intro k v
+    rw [cc, mem_expCredits]
+    simp only [hcredit]
+    constructor
+    · intro hfk
+      by_cases hmv : ∃ op uc, s.unminedCredits.find? op = some uc ∧ op.hash = t.hash ∧ k = ⟨t.hash, bm.block, op.index⟩
+      · obtain ⟨op, uc, h1, h2, rfl⟩ := hmv
+        rw [hm.credMove op uc h1 h2] at hfk
+        cases hfk
+        obtain ⟨_, h3, h4⟩ := hmove op uc h1 h2
+        have hop : (⟨t.hash, op.index⟩ : OutPoint) = op := by cases op; simp_all
+        refine ⟨t, bm, (hmemC _).mpr (Or.inr rfl), rfl, rfl, h3, ?_, ?_, ?_⟩
+        · show lookup L.credit ⟨t.hash, op.index⟩ = _; rw [hop]; exact h4
+        · show none = spenderOf _ ⟨t.hash, op.index⟩; rw [spenderOf_own_none hl hf]
+        · show false = (spenderOf _ ⟨t.hash, op.index⟩).isSome; rw [spenderOf_own_none hl hf]; rfl
+      · by_cases hsp : ∃ (j : Nat) (inp : OutPoint), t.ins[j]? = some inp ∧ s.unspent.find? inp = some k.block ∧ inp = k.outPoint
+        · obtain ⟨j, inp, h1, h2, h3⟩ := hsp
+          have hk : k = ⟨inp.hash, k.block, inp.index⟩ := by rw [h3]; exact (credKey_eta k).symm
+          have hne : inp.hash ≠ t.hash := hf.noSelf inp (List.mem_of_getElem? h1)
+          obtain ⟨cv, hcv, hsp0, hbase⟩ := hunspent inp k.block h2
+          have := hm.credSpend j inp k.block h1 h2 hne
+          rw [hbase, ← hk] at this
+          rw [this] at hfk
+          cases hfk
+          rw [← hk] at hcv
+          obtain ⟨x, b, hxb, e1, e2, e3, e4, _, _⟩ := (hr.credits_iff k cv).mp hcv
+          refine ⟨x, b, (hmemC _).mpr (Or.inl hxb), e1, e2, e3, e4, ?_, ?_⟩
+          · show some _ = spenderOf _ k.outPoint
+            rw [← h3, spenderOf_toChain_in hl hf h1]
+          · show true = (spenderOf _ k.outPoint).isSome
+            rw [← h3, spenderOf_toChain_in hl hf h1]; rfl
+        · -- untouched record
+          have hmiss := hm.credMiss k
+            (fun op uc h1 h2 e => hmv ⟨op, uc, h1, h2, e⟩)
+            (fun j inp h1 => by
+              by_cases e1 : s.unspent.find? inp = some k.block
+              · right; intro e2; exact hsp ⟨j, inp, h1, e1, e2⟩
+              · left; exact e1)
+          rw [hmiss] at hfk
+          obtain ⟨x, b, hxb, e1, e2, e3, e4, e5, e6⟩ := (hr.credits_iff k v).mp hfk
+          have hnot : k.outPoint ∉ t.ins := by
+            intro hin
+            have hnone := spenderOf_input_none hf hin
+            rw [hnone] at e6
+            have hu : s.unspent.find? k.outPoint = some k.block :=
+              (hw.wf.index k.outPoint k.block).mpr ⟨v, by rw [credKey_eta]; exact hfk, e6⟩
+            obtain ⟨j, hj⟩ := List.getElem?_of_mem hin
+            exact hsp ⟨j, k.outPoint, hj, hu, rfl⟩
+          refine ⟨x, b, (hmemC _).mpr (Or.inl hxb), e1, e2, e3, e4, ?_, ?_⟩
+          · rw [spenderOf_toChain_out hl hf hnot]; exact e5
+          · rw [spenderOf_toChain_out hl hf hnot]; exact e6
+    · rintro ⟨x, b, hxb, e1, e2, e3, e4, e5, e6⟩
+      rcases (hmemC _).mp hxb with hold | hnew
+      · -- an old confirmed transaction
+        have hkh : k.hash ≠ t.hash := by rw [e1]; exact hf.notMined _ hold
+        by_cases hin : k.outPoint ∈ t.ins
+        · obtain ⟨j, hj⟩ := List.getElem?_of_mem hin
+          have hnone := spenderOf_input_none hf hin
+          -- the old record: unspent
+          have hold' : s.credits.find? k = some ⟨v.amount, v.change, false, none⟩ :=
+            (hr.credits_iff k _).mpr ⟨x, b, hold, e1, e2, e3, e4, by rw [hnone], by rw [hnone]; rfl⟩
+          have hu : s.unspent.find? k.outPoint = some k.block :=
+            (hw.wf.index k.outPoint k.block).mpr ⟨_, by rw [credKey_eta]; exact hold', rfl⟩
+          have hne : k.outPoint.hash ≠ t.hash := hkh
+          have := hm.credSpend j k.outPoint k.block hj hu hne
+          rw [credKey_eta] at this
+          rw [this]
+          have hb : baseCredit s k = ⟨v.amount, v.change, false, none⟩ := by unfold baseCredit; rw [hold']; rfl
+          rw [hb]
+          rw [spenderOf_toChain_in hl hf hj] at e5 e6
+          cases v; simp_all
+        · rw [spenderOf_toChain_out hl hf hin] at e5 e6
+          have hold' : s.credits.find? k = some v := (hr.credits_iff k v).mpr ⟨x, b, hold, e1, e2, e3, e4, e5, e6⟩
+          rw [hm.credMiss k (fun op uc _ _ e => hkh (by rw [e])) (fun j inp hj => Or.inr (fun e => hin (e ▸ List.mem_of_getElem? hj)))]
+          exact hold'
+      · -- t itself
+        cases hnew
+        have hko : k.outPoint = ⟨t.hash, k.index⟩ := by cases k; simp_all [CredKey.outPoint]
+        rw [hko, spenderOf_own_none hl hf] at e5 e6
+        rw [hko] at e4
+        -- t must have been unconfirmed (a new transaction has no credits yet)
+        obtain ⟨p, hp, hpk⟩ := (lookup_isSome_iff L.credit _).mp (by rw [e4]; rfl)
+        obtain ⟨q, hq, hqh, _⟩ := hl.creditKnown p hp
+        have hqt : q.1.hash = t.hash := by rw [hqh, hpk]
+        obtain ⟨qx, qo⟩ := q
+        have htp : t ∈ L.pool := by
+          rcases mem_known.mp hq with ⟨b', rfl, hmq⟩ | ⟨rfl, hmq⟩
+          · exact absurd hqt (hf.notMined _ hmq)
+          · exact hf.sameTx qx hmq hqt ▸ hmq
+        have huc : s.unminedCredits.find? ⟨t.hash, k.index⟩ = some ⟨v.amount, v.change⟩ :=
+          (hr.ucredits_iff _ _).mpr ⟨t, htp, rfl, e3, e4⟩
+        have := hm.credMove _ _ huc rfl
+        have hk : k = ⟨t.hash, bm.block, k.index⟩ := by
+          obtain ⟨kh, kb, ki⟩ := k
+          simp only at e1 e2 ⊢
+          rw [e1, e2]
+        rw [hk, this]
+        obtain ⟨a, c, sp, spd⟩ := v
+        simp only at e5 e6 ⊢
+        rw [e5, e6]; rfl
+  · -- debits
+    intro dk d
+    rw [cd, cc]
+    constructor
+    · intro hfd
+      by_cases hhit : ∃ (j : Nat) (inp : OutPoint) (b0 : Block), t.ins[j]? = some inp ∧ s.unspent.find? inp = some b0 ∧ dk = ⟨t.hash, bm.block, j⟩
+      · obtain ⟨j, inp, b0, h1, h2, rfl⟩ := hhit
+        rw [hm.debHit j inp b0 h1 h2] at hfd
+        cases hfd
+        have hne : inp.hash ≠ t.hash := hf.noSelf inp (List.mem_of_getElem? h1)
+        exact ⟨_, hm.credSpend j inp b0 h1 h2 hne, rfl, rfl⟩
+      · have hmiss := hm.debMiss dk (fun j inp h1 => by
+          cases hu : s.unspent.find? inp with
+          | none => exact Or.inl rfl
+          | some b0 => exact Or.inr (fun e => hhit ⟨j, inp, b0, h1, hu, e⟩))
+        rw [hmiss] at hfd
+        obtain ⟨cv, h1, h2, h3⟩ := (hr.debits dk d).mp hfd
+        refine ⟨cv, ?_, h2, h3⟩
+        obtain ⟨x, b, hxb, e1, _, _, _, e5, e6⟩ := (hr.credits_iff _ _).mp h1
+        have hsome : cv.spent = true := by rw [e6, ← e5, h2]; rfl
+        rw [hm.credMiss d.credKey
+          (fun op uc _ _ e => hf.notMined _ hxb (by rw [← e1, e]))
+          (fun j inp hj => by
+            by_cases e1' : s.unspent.find? inp = some d.credKey.block
+            · right
+              intro e2
+              obtain ⟨cv', h1', h2'⟩ := (hw.wf.index inp d.credKey.block).mp e1'
+              rw [e2, credKey_eta, h1] at h1'
+              cases h1'
+              rw [hsome] at h2'; cases h2'
+            · left; exact e1')]
+        exact h1
+    · rintro ⟨cv, h1, h2, h3⟩
+      by_cases hmv : ∃ op uc, s.unminedCredits.find? op = some uc ∧ op.hash = t.hash ∧
+          d.credKey = ⟨t.hash, bm.block, op.index⟩
+      · obtain ⟨op, uc, h4, h5, h6⟩ := hmv
+        rw [h6, hm.credMove op uc h4 h5] at h1
+        cases h1; cases h2
+      · by_cases hsp : ∃ (j : Nat) (inp : OutPoint), t.ins[j]? = some inp ∧ s.unspent.find? inp = some d.credKey.block ∧
+            inp = d.credKey.outPoint
+        · obtain ⟨j, inp, h4, h5, h6⟩ := hsp
+          have hk : d.credKey = ⟨inp.hash, d.credKey.block, inp.index⟩ := by rw [h6]; exact (credKey_eta _).symm
+          have hne : inp.hash ≠ t.hash := hf.noSelf inp (List.mem_of_getElem? h4)
+          have hc := hm.credSpend j inp d.credKey.block h4 h5 hne
+          rw [← hk, h1] at hc
+          cases hc
+          simp only [Option.some.injEq] at h2
+          rw [← h2, hm.debHit j inp d.credKey.block h4 h5, ← hk]
+          obtain ⟨da, dck⟩ := d
+          simp only at h3 ⊢
+          rw [h3]
+        · have hmiss := hm.credMiss d.credKey
+            (fun op uc h4 h5 e => hmv ⟨op, uc, h4, h5, e⟩)
+            (fun j inp h4 => by
+              by_cases e1 : s.unspent.find? inp = some d.credKey.block
+              · right; intro e2; exact hsp ⟨j, inp, h4, e1, e2⟩
+              · left; exact e1)
+          rw [hmiss] at h1
+          have hold := (hr.debits dk d).mpr ⟨cv, h1, h2, h3⟩
+          rw [hm.debMiss dk (fun j inp _ => by
+            right
+            rintro rfl
+            obtain ⟨⟨⟨rec0, hr0, _⟩, _⟩, _⟩ := hw.deb _ _ hold
+            obtain ⟨b, hmb, e⟩ := (hr.txrecs_iff _ _).mp hr0
+            have : rec0.hash = t.hash := by
+              have := congrArg TxKey.hash e; simpa [CredKey.txKey] using this.symm
+            exact hf.notMined _ hmb this)]
+          exact hold
+  · -- unconfirmed credits
+    intro op uc
+    rw [cuc, mem_expUnminedCredits]
+    simp only [hcredit]
+    by_cases e : op.hash = t.hash
+    · simp only [e, if_true, reduceCtorEq, false_iff]
+      rintro ⟨u, hu, h1, _⟩
+      exact (mem_pool_toChain.mp hu).2 h1.symm
+    · simp only [e, if_false]
+      rw [hr.ucredits_iff]
+      constructor
+      · rintro ⟨u, hu, h1, h2, h3⟩
+        exact ⟨u, mem_pool_toChain.mpr ⟨hu, by rw [← h1]; exact e⟩, h1, h2, h3⟩
+      · rintro ⟨u, hu, h1, h2, h3⟩
+        exact ⟨u, (mem_pool_toChain.mp hu).1, h1, h2, h3⟩
+  · -- unconfirmed inputs
+    intro op x
+    rw [cui, hr.uinputs, mem_poolSpenders, mem_poolSpenders]
+    constructor
+    · rintro ⟨⟨u, hu, h1, h2⟩, h3⟩
+      exact ⟨u, mem_pool_toChain.mpr ⟨hu, by rw [h2]; exact h3⟩, h1, h2⟩
+    · rintro ⟨u, hu, h1, h2⟩
+      obtain ⟨hu1, hu2⟩ := mem_pool_toChain.mp hu
+      exact ⟨⟨u, hu1, h1, h2⟩, by rw [← h2]; exact hu2⟩
+  · -- leases
+    intro op; rw [clk, hm.locked]; exact hr.leases op
+  · rw [ct, hm.txrecs]; exact nodupKeys_insert _ _ _ hr.nodupTxrecs
+  · rw [cd]; exact hm.nodupDeb hr.nodupDebits
+
 end TxStore
